@@ -108,8 +108,14 @@ SETFAM = {
     "ball": lambda z: [rsome.norm(z, 2) <= 1.5],
     "pnorm": lambda z: [rsome.pnorm(z, 3) <= 0.5],
     "budget": lambda z: [rsome.norm(z, 1) <= 1.5, rsome.norm(z, "inf") <= 1],
-    "exp": lambda z: [rsome.exp(z).sum() <= 3, z >= -1],
+    "exp": lambda z: [rsome.exp(z) <= 3, z >= -1],
     "kl": lambda z: [rsome.kldiv(z, 0.5, 0.1), z.sum() == 1],
+    # sets made ONLY of general-cone constraints (no linear/bound/abs/norm part): they reach gcp.Model.st's own
+    # branches and nothing else, so cache invalidation and reset must work without help from the lp/socp layers
+    "kl-only": lambda z: [rsome.kldiv(z, 0.5, 0.1)],
+    "exp-only": lambda z: [rsome.exp(z) <= 3],
+    "entropy-only": lambda z: [rsome.entropy(z) >= 0.1],
+    "pnorm-exc-only": lambda z: [rsome.pnorm(z, 2.5) <= 1.5],
 }
 
 
@@ -218,8 +224,8 @@ def valid(history):
 def ro_histories(tier, seed):
     base = [("create", "A"), ("create", "B"), ("st", "A"), ("st", "B"), ("minmax", "box")]
     out = []
-    famA = ["ball", "pnorm", "box"] if tier == "quick" else list(SETFAM)
-    famB = ["box", "exp", "budget"] if tier == "quick" else list(SETFAM)
+    famA = ["ball", "pnorm", "box", "kl-only"] if tier == "quick" else list(SETFAM)
+    famB = ["box", "exp", "budget", "exp-only", "entropy-only"] if tier == "quick" else list(SETFAM)
     rng = random.Random(seed)
     fixed = []
     for fa, fb in itertools.product(famA, famB):
@@ -304,7 +310,7 @@ def frames():
         out.extend(obs)
 
     # (1) a captured support is not changed by later set definitions, formulations or solves
-    for first, later in itertools.product(["box", "ball", "pnorm", "exp"], ["box", "ball", "pnorm", "budget", "kl"]):
+    for first, later in itertools.product(["box", "ball", "pnorm", "exp", "kl-only"], ["box", "ball", "pnorm", "budget", "kl", "kl-only", "exp-only", "entropy-only", "pnorm-exc-only"]):
         def setup(c, first=first, later=later):
             w = RoWorld()
             k1 = (w.expr("A") <= 1).forall(*SETFAM[first](w.z))
@@ -363,6 +369,31 @@ def frames():
     run("rsome.ro:Model.soc_solve", "soc_solve then solve", setup_cache,
         lambda ns: (ns["w"].m.soc_solve(Oracle, display=False), ns["w"].m.solve(Oracle, display=False), S.snap(ns["P"]))[2],
         [post("cached-primal-unchanged", lambda ns, res: not S.diff(ns["before"], res))])
+
+    # (2b) a model whose constraints are all general-cone constraints is re-formulated after one more is added
+    def setup_conly(c):
+        m = ro.Model()
+        x = m.dvar(2)
+        m.min(rsome.exp(x[0]) + 0.0 if False else x.sum())
+        m.st(rsome.exp(x) <= 5)
+        F1 = canon(m.do_math())
+        D1 = canon(m.do_math(primal=False))
+        return {"m": m, "x": x, "F1": F1}
+
+    def call_conly(ns):
+        m, x = ns["m"], ns["x"]
+        m.st(rsome.entropy(x) >= 0.2)
+        inc = canon(m.do_math())
+        incd = canon(m.do_math(primal=False))
+        f = ro.Model()
+        y = f.dvar(2)
+        f.min(y.sum())
+        f.st(rsome.exp(y) <= 5)
+        f.st(rsome.entropy(y) >= 0.2)
+        return inc, canon(f.do_math()), incd, canon(f.do_math(primal=False))
+    run("rsome.gcp:Model.st", "exp-cone-only model: formulate, add an entropy constraint, formulate again", setup_conly, call_conly,
+        [post("primal-reflects-the-added-constraint", lambda ns, res: not canon_diff(res[0], res[1])),
+         post("dual-reflects-the-added-constraint", lambda ns, res: not canon_diff(res[2], res[3]))])
 
     # (3) an expression used inside an expectation / piecewise term keeps its meaning elsewhere
     def setup_share(c):
